@@ -22,6 +22,7 @@ from plumpy.base.state_machine import StateEventHook
 S = ps.ProcessState
 TERMINAL = ('finished', 'excepted', 'killed')
 KILL_CMD_MSG = 'cmdkill'
+EXC_VALUE_CODE = 77      # how a resume value that is an exception instance (`resume E`) appears in traces and to the model
 
 
 class UserExc(Exception):
@@ -61,19 +62,33 @@ def prog_lines(prog):
     return out
 
 
+class RetryCmd(ps.Continue):
+    """user-defined subclasses of the command classes are commands too"""
+
+
+class ParkCmd(ps.Wait):
+    pass
+
+
+class DoneCmd(ps.Stop):
+    pass
+
+
 def _make_body(i, awaits, oc):
+    sub = i % 3 == 2          # every third function returns its command as an instance of a user-defined SUBCLASS
+
     def finish(self):
         k = oc[0]
         if k == 'cont':
-            return ps.Continue(getattr(self, f'f{oc[1]}'), *oc[2], **{f'k{a}': b for a, b in oc[3].items()})
+            return (RetryCmd if sub else ps.Continue)(getattr(self, f'f{oc[1]}'), *oc[2], **{f'k{a}': b for a, b in oc[3].items()})
         if k == 'wait':
-            return ps.Wait(getattr(self, f'f{oc[1]}'))
+            return (ParkCmd if sub else ps.Wait)(getattr(self, f'f{oc[1]}'))
         if k == 'stop' and oc[1] == 'AW':
             return self.loop.create_future()        # an awaitable object returned as the plain result value
         if k == 'stop':
             if oc[2]:
-                return oc[1] if i % 2 == 0 else ps.Stop(oc[1], True)
-            return plumpy.UnsuccessfulResult(oc[1]) if i % 2 == 0 else ps.Stop(oc[1], False)
+                return oc[1] if i % 2 == 0 else (DoneCmd if sub else ps.Stop)(oc[1], True)
+            return plumpy.UnsuccessfulResult(oc[1]) if i % 2 == 0 else (DoneCmd if sub else ps.Stop)(oc[1], False)
         if k == 'kill':
             if i % 2 == 0:
                 return ps.Kill()            # Kill without a message (msg=None) is as legal as Kill(msg)
@@ -84,6 +99,7 @@ def _make_body(i, awaits, oc):
         raise ValueError(oc)
 
     def record(self, a, kw):
+        a = tuple(EXC_VALUE_CODE if isinstance(x, UserExc) else x for x in a)      # an exception INSTANCE passed as a plain value
         self._trace.append((i, tuple(a), tuple(sorted((int(k[1:]), v) for k, v in kw.items())), bool(self.paused),
                             self.status))
 
@@ -209,6 +225,7 @@ CORPUS = collections.OrderedDict([
     ('Chain', chain_prog([[(0, 0)], []], 1)),
     ('Unsucc', {'kind': 'proc', 'nfut': 0, 'fns': {0: (1, ('cont', 1, [4, 5], {1: 6, 0: 7})), 1: (0, ('stop', 2, False))}}),
     ('KillCmd', {'kind': 'proc', 'nfut': 0, 'fns': {0: (1, ('cont', 1, [], {})), 1: (0, ('kill',))}}),
+    ('SubCmds', {'kind': 'proc', 'nfut': 0, 'fns': {0: (0, ('cont', 2, [], {})), 2: (0, ('wait', 5)), 5: (0, ('stop', 4, True))}}),
     ('KillNoMsg', {'kind': 'proc', 'nfut': 0, 'fns': {0: (1, ('cont', 1, [], {})), 1: (0, ('cont', 2, [], {})), 2: (0, ('kill',))}}),
     ('WaitWait', {'kind': 'proc', 'nfut': 0, 'fns': {0: (0, ('wait', 1)), 1: (1, ('wait', 2)), 2: (0, ('stop', None, True))}}),
     ('Chain2', chain_prog([[(0, 0), (1, 1)], [(2, 0)], []], 3)),
@@ -487,7 +504,8 @@ class Run:
             elif toks[0] == 'kill':
                 r = p.kill('km%d' % len(self.ops))
             elif toks[0] == 'resume':
-                r = p.resume() if toks[1] == '-' else p.resume(None) if toks[1] == 'N' else p.resume(int(toks[1]))
+                r = (p.resume() if toks[1] == '-' else p.resume(None) if toks[1] == 'N'
+                     else p.resume(UserExc(EXC_VALUE_CODE)) if toks[1] == 'E' else p.resume(int(toks[1])))
             elif toks[0] == 'fail':
                 r = p.fail(self.fail_exc, None)
             elif toks[0] == 'setstatus':        # (not an op of the `pm` line protocol: used by the status stream of C05 only)
@@ -543,8 +561,9 @@ class Run:
         if toks[0] == 'kill' and live:
             self.kill_results.append(('raised' if raised else r, 'km%d' % idx, idx))
         if toks[0] == 'resume' and not raised:
-            self.resumes.append((None if toks[1] == '-' else 'N' if toks[1] == 'N' else int(toks[1]), ph, idx))
-        self.ops.append('resume 0' if op == 'resume N' else op)
+            self.resumes.append((None if toks[1] == '-' else 'N' if toks[1] == 'N' else EXC_VALUE_CODE if toks[1] == 'E' else int(toks[1]),
+                                 ph, idx))
+        self.ops.append('resume 0' if op == 'resume N' else f'resume {EXC_VALUE_CODE}' if op == 'resume E' else op)
         self.observe(ret)
 
     def tick(self):
@@ -690,6 +709,9 @@ def ops_for(prog, alphabet):
         elif o == 'resumeN':
             if prog['kind'] == 'proc' and any(oc[0] == 'wait' for _, oc in prog['fns'].values()):
                 ops.append('resume N')
+        elif o == 'resumeE':
+            if prog['kind'] == 'proc' and any(oc[0] == 'wait' for _, oc in prog['fns'].values()):
+                ops.append('resume E')
         elif o == 'complete':
             for f in range(prog.get('nfut', 0)):
                 ops.append(f'complete {f} ok {10 + f}')
